@@ -198,6 +198,7 @@ func zipPathMain(args []string) {
 			entries = append(entries, zEntry{name: name, isDir: rnd.Chance(20), content: []byte("data" + strconv.Itoa(j)), declared: -1})
 		}
 		recursive := rnd.Chance(30) || corpus
+		innerNonUTF8 := false
 		if recursive {
 			innerEntries := []zEntry{{name: genHostileName(rnd), content: []byte("in"), declared: -1}, {name: "ok.txt", content: []byte("ok"), declared: -1}}
 			nm := hx.Pick(rnd, nestedNames)
@@ -206,6 +207,11 @@ func zipPathMain(args []string) {
 				nm = nestedNames[(i-nz)/2]
 			}
 			entries = append(entries, zEntry{name: nm, content: buildZip(innerEntries), declared: -1})
+			for _, ie := range innerEntries {
+				if !utf8.ValidString(ie.name) {
+					innerNonUTF8 = true // the names inside a nested archive are transcoded too
+				}
+			}
 		}
 		data := buildZip(entries)
 		for _, backend := range []string{"mem", "os"} {
@@ -247,7 +253,7 @@ func zipPathMain(args []string) {
 			if uerr != nil {
 				rep.Hist("unzip-error:" + errKind(uerr))
 			}
-			nonUTF8 := false
+			nonUTF8 := innerNonUTF8
 			for _, e := range entries {
 				if !utf8.ValidString(e.name) {
 					nonUTF8 = true
